@@ -75,6 +75,20 @@ CHECKS = {
              "copy/deepcopy/CreateCopy()/pickle round trips are equal. Inductive reading: no step mutates any member => no sequence does.",
         note="numpy arrays modelled as object arrays incl. in-place (out=) ufunc semantics; two-step chains in thorough",
         ref="DESIGN.md §4 C13"),
+    "C16": dict(
+        text="Every legacy spelling derivable (by an independent reference rewriting) from the substitution list for every table unit is pushed through 14 "
+             "API entries (ObtainQuantity, Scalar/Array/FixedArray/FractionScalar construction, FromScalars, CreateCopy, GetValue(s), UnitDatabase.Convert on "
+             "floats/lists/tuples, GetDefaultCategory, AddCategory valid/default units) on a fresh database with a SYMBOLIC amount: objects must equal the "
+             "current-spelling ones and z3 proves the conversions agree for ALL reals; rewriting is idempotent; every one of the current symbols is a fixed point.",
+        note="the string dimension is finite and enumerated exhaustively (stated honestly: the solver quantifies only over the amount); idempotence on arbitrary strings not claimed",
+        ref="DESIGN.md §4 C16"),
+    "C19": dict(
+        text="For EVERY unit (with its default category) and EVERY category, the documented construction forms of Scalar, Array, FixedArray and FractionScalar "
+             "are built with SYMBOLIC values on a fresh database, in two construction orders (cache history), and must be pairwise ==; forms with every other "
+             "category of the quantity type must agree with each other; Scalar(category) == Scalar(default value, default unit, category); eval(repr(s)) == s "
+             "with the value printed as a bound identifier (template decided for all values) plus an auxiliary concrete list of hard floats.",
+        note="finite quantifier exhausted; values universally quantified by carrying z3 terms through the real constructors and __eq__",
+        ref="DESIGN.md §4 C19"),
 }
 
 NOT_APPLICABLE = {
